@@ -1,6 +1,6 @@
 """C14 - transition iterators (narrow)."""
 from ..rules_shape import floor_a
-from ..rules_tz import floor_b, iter_feedback, in_dst_single, handover, noop_skip
+from ..rules_tz import floor_b, iter_feedback, in_dst_single, handover, noop_skip, iter_strict
 from ..rules_dep import run_dep
 
 
@@ -10,6 +10,7 @@ def run(ctx, rep):
     in_dst_single(rep, prog)
     handover(rep, prog)
     noop_skip(rep, prog)
+    iter_strict(rep, prog)
     rep.notes.append("Does not decide completeness ('omits none') or hand-over correctness.")
     floor_b(rep, prog, only=("previous_transition", "next_transition"))
     iter_feedback(rep, prog)
